@@ -54,6 +54,8 @@ def text_of(gt):
 
 
 def run_case(case, rec, cid):
+    from harness.common import set_mode
+    set_mode(case["mode"])        # the bounds of a year-less point depend on the active calendar mode
     rec.begin(cid)
     gt = case["gt"]
     text = text_of(gt)
@@ -108,7 +110,12 @@ def expand(job):
             zh = rnd.choice([0, 1, -3, 5, 13])
             zm = rnd.choice([0, 30, 45])
             gt["zh"], gt["zm"] = zh, (-zm if zh < 0 or (zh == 0 and rnd.random() < 0.4) else zm)
-        yield {"gt": gt, "parser": rnd.randrange(3)}
+        from harness.common import MEANING, SPELLINGS
+        sp = rnd.choice(SPELLINGS)
+        if MEANING[sp] == "360day":
+            gt["doy"] = min(gt["doy"], 360)
+            gt["woy"] = min(gt["woy"], 51)      # a 360-day week-year has 51 or 52 weeks (the truncated year decides)
+        yield {"gt": gt, "parser": rnd.randrange(3), "mode": sp}
 
 
 def jobs(tier, seed):
